@@ -24,6 +24,9 @@ var evalPkg *packages.Package
 var evalDepth int
 
 // evalIntExpr evaluates an integer/boolean expression over one variable (by object identity).
+// evalLocals: single-assignment locals of the function under analysis (see analyseInterleave)
+var evalLocals = map[types.Object]ast.Expr{}
+
 func evalExpr(info *types.Info, e ast.Expr, v types.Object, val int64) (int64, bool, bool) { // (int value, bool value, ok)
 	switch x := e.(type) {
 	case *ast.ParenExpr:
@@ -38,6 +41,14 @@ func evalExpr(info *types.Info, e ast.Expr, v types.Object, val int64) (int64, b
 		if obj := info.Uses[x]; obj != nil {
 			if obj == v {
 				return val, false, true
+			}
+			if rhs, isLocal := evalLocals[obj]; isLocal {
+				evalDepth++
+				defer func() { evalDepth-- }()
+				if evalDepth > 3 {
+					return 0, false, false
+				}
+				return evalExpr(info, rhs, v, val)
 			}
 			if c, ok := obj.(*types.Const); ok {
 				if n, ok := constant.Int64Val(c.Val()); ok {
@@ -204,6 +215,43 @@ func analyseInterleave(p *packages.Package, fd *ast.FuncDecl) interleave {
 	}
 	res.loopVar = loopVar
 	res.pos = sw.Pos()
+	// locals defined once, before the switch, by an expression: a named position predicate
+	evalLocals = map[types.Object]ast.Expr{}
+	assigned := map[types.Object]int{}
+	ast.Inspect(fd.Body, func(n ast.Node) bool {
+		switch x := n.(type) {
+		case *ast.AssignStmt:
+			for i, l := range x.Lhs {
+				id, ok := l.(*ast.Ident)
+				if !ok {
+					continue
+				}
+				obj := info.Defs[id]
+				if obj == nil {
+					obj = info.Uses[id]
+				}
+				if obj == nil {
+					continue
+				}
+				assigned[obj]++
+				if x.Tok == token.DEFINE && len(x.Lhs) == len(x.Rhs) && x.Pos() < sw.Pos() {
+					evalLocals[obj] = x.Rhs[i]
+				}
+			}
+		case *ast.IncDecStmt:
+			if id, ok := x.X.(*ast.Ident); ok {
+				if obj := info.Uses[id]; obj != nil {
+					assigned[obj] += 2
+				}
+			}
+		}
+		return true
+	})
+	for obj, n := range assigned {
+		if n != 1 || obj == loopVar {
+			delete(evalLocals, obj)
+		}
+	}
 	nCase := 0
 	for _, st := range sw.Body.List {
 		cc := st.(*ast.CaseClause)
@@ -452,6 +500,20 @@ func runC13(c *Ctx) {
 			}
 		}
 		okBug, okComment := false, false
+		for _, hf := range fnAndHelpers(rc, 1) {
+			for _, cl := range Calls(hf) {
+				if hf == rc || !strings.HasSuffix(cl.Name, "entity.Id.HasPrefix") {
+					continue
+				}
+				// the candidate scan extracted into a helper: its prefix parameter stands for the caller's argument
+				c.Sites++
+				for _, a := range argsThroughCaller(rc, hf, cl.Args()[0]) {
+					if sc := hasOriginCall(a, "entity.SeparateIds", 0); sc != nil && sc.Common().Args[0] == prefixParam {
+						okBug = true
+					}
+				}
+			}
+		}
 		for _, cl := range Calls(rc) {
 			c.Sites++
 			if strings.HasSuffix(cl.Name, "entity.Id.HasPrefix") {
@@ -746,34 +808,36 @@ func checkC13Scans(c *Ctx) {
 		}
 		// the bug candidates: collected iff Id().HasPrefix(primary part)
 		okCand := false
-		for _, cl := range Calls(rc) {
-			if !strings.HasSuffix(cl.Name, "entity.Id.HasPrefix") {
-				continue
-			}
-			cv, _ := cl.Instr.(*ssa.Call)
-			for _, b := range rc.Blocks {
-				for _, ins := range b.Instrs {
-					ap, isCall := ins.(*ssa.Call)
-					if !isCall {
-						continue
-					}
-					if bi, isB := ap.Common().Value.(*ssa.Builtin); !isB || bi.Name() != "append" {
-						continue
-					}
-					saw := false
-					only, _ := onlyControlledBy(b, func(cc controlCond) bool {
-						if cc.If.Cond == ssa.Value(cv) && cc.Edge == 0 {
-							saw = true
-							return true
+		for _, hf := range fnAndHelpers(rc, 1) {
+			for _, cl := range Calls(hf) {
+				if !strings.HasSuffix(cl.Name, "entity.Id.HasPrefix") {
+					continue
+				}
+				cv, _ := cl.Instr.(*ssa.Call)
+				for _, b := range hf.Blocks {
+					for _, ins := range b.Instrs {
+						ap, isCall := ins.(*ssa.Call)
+						if !isCall {
+							continue
 						}
-						return false
-					})
-					if only && saw {
-						// the id appended is the id tested
-						for _, av := range appendedValues(ap) {
-							if idc, isIdc := av.(*ssa.Call); isIdc && len(idc.Common().Args) > 0 && len(cv.Common().Args) > 0 {
-								if tested, isT := cv.Common().Args[0].(*ssa.Call); isT && len(tested.Common().Args) > 0 && tested.Common().Args[0] == idc.Common().Args[0] {
-									okCand = true
+						if bi, isB := ap.Common().Value.(*ssa.Builtin); !isB || bi.Name() != "append" {
+							continue
+						}
+						saw := false
+						only, _ := onlyControlledBy(b, func(cc controlCond) bool {
+							if cc.If.Cond == ssa.Value(cv) && cc.Edge == 0 {
+								saw = true
+								return true
+							}
+							return false
+						})
+						if only && saw {
+							// the id appended is the id tested
+							for _, av := range appendedValues(ap) {
+								if idc, isIdc := av.(*ssa.Call); isIdc && len(idc.Common().Args) > 0 && len(cv.Common().Args) > 0 {
+									if tested, isT := cv.Common().Args[0].(*ssa.Call); isT && len(tested.Common().Args) > 0 && tested.Common().Args[0] == idc.Common().Args[0] {
+										okCand = true
+									}
 								}
 							}
 						}
@@ -1057,4 +1121,33 @@ func dominatedBySuccessOfNamed(fn *ssa.Function, suffix string, at ssa.Instructi
 		}
 	}
 	return false
+}
+
+// argsThroughCaller: v, a value inside helper; when it is a parameter of helper, the arguments the calls
+// of helper in caller pass for it; otherwise v itself.
+func argsThroughCaller(caller, helper *ssa.Function, v ssa.Value) []ssa.Value {
+	pr, isP := v.(*ssa.Parameter)
+	if !isP {
+		return []ssa.Value{v}
+	}
+	idx := -1
+	for i, p := range helper.Params {
+		if p == pr {
+			idx = i
+		}
+	}
+	var out []ssa.Value
+	for _, cl := range Calls(caller) {
+		callee := cl.Instr.Common().StaticCallee()
+		if callee == nil {
+			continue
+		}
+		if callee != helper && bodyOf(callee) != helper {
+			continue
+		}
+		if args := cl.Instr.Common().Args; idx >= 0 && idx < len(args) {
+			out = append(out, args[idx])
+		}
+	}
+	return out
 }
